@@ -24,6 +24,7 @@ def _run_shard(job):
         for k in range(job['count']):
             tid = job['base'] + k
             m = core.Machine(lib, texts)
+            job['_k'] = k
             oplist, meta = gen(m, rng, job)
             traces.append({'id': tid, 'nregs': max(1, len(m.regs) - 1), 'ev': m.events})
             oplists[tid] = oplist
